@@ -10,87 +10,108 @@ using namespace phosg;
 typedef KDTree<Vector2<int64_t>, int> Tree;
 typedef Vector2<int64_t> Pt;
 
-// insert np points, erase ne (point, value) pairs, then query. q = {qx, qy, lox, loy, hix, hiy}.
-// The tree is destroyed on return (in whatever state the script left it, including empty).
-WEXPORT int64_t w_kd_history(const uint8_t* px, const uint8_t* py, const uint8_t* pv, size_t np,
+// One wrapper per feature, so that each query carries less code. q = {qx, qy, lox, loy, hix, hiy}.
+// The tree is destroyed on return in whatever state the script left it (including empty).
+static void kd_build(Tree& t, const uint8_t* px, const uint8_t* py, const uint8_t* pv, size_t np,
+    const uint8_t* ex, const uint8_t* ey, const uint8_t* ev, size_t ne, int64_t* out) {
+  for (size_t i = 0; i < np; i++) {
+    t.insert(Pt(px[i], py[i]), pv[i]);
+  }
+  for (size_t i = 0; i < ne; i++) {
+    out[KD_ERASE + i] = t.erase(Pt(ex[i], ey[i]), ev[i]);
+  }
+  out[KD_SIZE] = static_cast<int64_t>(t.size());
+}
+
+// insert, erase, then exact lookups: at(q), exists(q)
+WEXPORT int64_t w_kd_lookup(const uint8_t* px, const uint8_t* py, const uint8_t* pv, size_t np,
     const uint8_t* ex, const uint8_t* ey, const uint8_t* ev, size_t ne, const uint8_t* q, int64_t* out) {
   try {
     Tree t;
-    for (size_t i = 0; i < np; i++) {
-      t.insert(Pt(px[i], py[i]), pv[i]);
-    }
-    for (size_t i = 0; i < ne; i++) {
-      out[KD_ERASE + i] = t.erase(Pt(ex[i], ey[i]), ev[i]);
-    }
-    out[KD_SIZE] = static_cast<int64_t>(t.size());
-    Pt qp(q[0], q[1]), lo(q[2], q[3]), hi(q[4], q[5]);
+    kd_build(t, px, py, pv, np, ex, ey, ev, ne, out);
+    Pt qp(q[0], q[1]);
     try {
       out[KD_AT] = 100 + t.at(qp);
     } catch (const std::out_of_range&) {
       out[KD_AT] = W_OUT_OF_RANGE;
     }
     out[KD_EXISTS] = t.exists(qp);
+    return 0;
+  }
+  W_CATCH_ALL
+}
+
+// insert, erase, then box queries: exists(lo, hi), within(lo, hi)
+WEXPORT int64_t w_kd_box(const uint8_t* px, const uint8_t* py, const uint8_t* pv, size_t np,
+    const uint8_t* ex, const uint8_t* ey, const uint8_t* ev, size_t ne, const uint8_t* q, int64_t* out) {
+  try {
+    Tree t;
+    kd_build(t, px, py, pv, np, ex, ey, ev, ne, out);
+    Pt lo(q[2], q[3]), hi(q[4], q[5]);
     out[KD_EXISTS_BOX] = t.exists(lo, hi);
     try {
       auto r = t.within(lo, hi);
-      if (r.size() > KD_MAXP) {
-        return W_CAPACITY;
-      }
-      out[KD_WITHIN_N] = static_cast<int64_t>(r.size());
-      for (size_t i = 0; i < r.size(); i++) {
+      out[KD_WITHIN_N] = (r.size() > np) ? W_CAPACITY : static_cast<int64_t>(r.size());
+      for (size_t i = 0; i < np && i < r.size(); i++) {
         out[KD_WITHIN + i] = KD_CODE(r[i].first.x, r[i].first.y, r[i].second);
       }
     } catch (const std::out_of_range&) {
       out[KD_WITHIN_N] = W_OUT_OF_RANGE;
     }
+    return 0;
+  }
+  W_CATCH_ALL
+}
+
+// insert, erase, then iteration begin()..end()
+WEXPORT int64_t w_kd_iter(const uint8_t* px, const uint8_t* py, const uint8_t* pv, size_t np,
+    const uint8_t* ex, const uint8_t* ey, const uint8_t* ev, size_t ne, const uint8_t* q, int64_t* out) {
+  try {
+    Tree t;
+    kd_build(t, px, py, pv, np, ex, ey, ev, ne, out);
     size_t n = 0;
-    for (auto it = t.begin(); it != t.end(); ++it) {
-      if (n > KD_MAXP) {
-        return W_CAPACITY;
-      }
+    auto it = t.begin();
+    for (; n <= np && it != t.end(); n++) {
       out[KD_ITER + n] = KD_CODE(it->first.x, it->first.y, it->second);
-      n++;
+      ++it;
     }
-    out[KD_ITER_N] = static_cast<int64_t>(n);
+    out[KD_ITER_N] = (it != t.end()) ? W_CAPACITY : static_cast<int64_t>(n);
     return 0;
   }
   W_CATCH_ALL
 }
 
 // insert np points, then run the erase-while-iterating idiom of KDTreeTest: entries whose code is flagged in
-// pred[KD_NCODES] are removed with erase_advance, the others are stepped over with ++.
-WEXPORT int64_t w_kd_erase_iter(const uint8_t* px, const uint8_t* py, const uint8_t* pv, size_t np, const uint8_t* pred,
+// bit `code` of predmask is set are removed with erase_advance, the others are stepped over with ++.
+WEXPORT int64_t w_kd_erase_iter(const uint8_t* px, const uint8_t* py, const uint8_t* pv, size_t np, uint32_t predmask,
     int64_t* out) {
   try {
     Tree t;
     for (size_t i = 0; i < np; i++) {
       t.insert(Pt(px[i], py[i]), pv[i]);
     }
+    // every loop iteration consumes one entry (erased or stepped over), so np iterations must suffice; one extra
+    // iteration is allowed so that a repeated visit is observable (loop bound stays concrete)
     size_t n = 0;
-    for (auto it = t.begin(); it != t.end();) {
-      if (n >= 2 * KD_MAXP) {
-        return W_CAPACITY;
-      }
+    auto it = t.begin();
+    for (; n <= np && it != t.end(); n++) {
       int64_t code = KD_CODE(it->first.x, it->first.y, it->second);
       out[KDI_VIS + n] = code;
-      n++;
-      if (pred[code]) {
+      if ((predmask >> code) & 1) {
         t.erase_advance(it);
       } else {
         ++it;
       }
     }
-    out[KDI_VIS_N] = static_cast<int64_t>(n);
+    out[KDI_VIS_N] = (it != t.end()) ? W_CAPACITY : static_cast<int64_t>(n);
     out[KDI_SIZE] = static_cast<int64_t>(t.size());
     n = 0;
-    for (auto it = t.begin(); it != t.end(); ++it) {
-      if (n > KD_MAXP) {
-        return W_CAPACITY;
-      }
-      out[KDI_ITER + n] = KD_CODE(it->first.x, it->first.y, it->second);
-      n++;
+    auto it2 = t.begin();
+    for (; n <= np && it2 != t.end(); n++) {
+      out[KDI_ITER + n] = KD_CODE(it2->first.x, it2->first.y, it2->second);
+      ++it2;
     }
-    out[KDI_ITER_N] = static_cast<int64_t>(n);
+    out[KDI_ITER_N] = (it2 != t.end()) ? W_CAPACITY : static_cast<int64_t>(n);
     for (size_t i = 0; i < np; i++) {
       out[KDI_EXISTS + i] = t.exists(Pt(px[i], py[i]));
     }
